@@ -18,9 +18,14 @@ ASSUMPTIONS = ['each handler run is atomic; receipt text parsing itself is C20, 
 EXHAUSTIVE = {'quick': False, 'thorough': False}
 
 
-def history(rng, msgs, via_tlv, dup, unknown, label='mix'):
-    """msgs: list of dict(log, nseg, ref, errs[list per segment])  -- all segments accepted"""
-    sim = CorrSim(ttl_resp_q=15 * Q, ttl_deliv_q=10 ** 7)
+def history(rng, msgs, via_tlv, dup, unknown, label='mix', persist=False):
+    """msgs: list of dict(log, nseg, ref, errs[list per segment])  -- all segments accepted
+    persist: the correlator keeps its stores in a directory and the client is restarted (a new correlator instance on the
+    same directory takes over) at random points of the history - which must make no difference"""
+    import tempfile
+    import shutil
+    pdir = tempfile.mkdtemp(prefix='c02-') if persist else ''
+    sim = CorrSim(ttl_resp_q=15 * Q, ttl_deliv_q=10 ** 7, directory=pdir)
     cases = [Case(sim.first_line, 'ok', None)]
     fail = None
     try:
@@ -99,6 +104,8 @@ def history(rng, msgs, via_tlv, dup, unknown, label='mix'):
                     e = res.parse_receipt().get('err', None)
                     seen.setdefault(lg, []).append((oi, e, getattr(res, 'extra_data', '')))
             cases.append(Case(ln, out, None))
+            if persist and o[0] != 'put' and rng.random() < 0.25:
+                sim.reload()
         ln, out = sim.op_dump()
         if not dup:
             for mi, m in enumerate(msgs):
@@ -119,10 +126,12 @@ def history(rng, msgs, via_tlv, dup, unknown, label='mix'):
             if lg not in {m['log'] for m in msgs} and fail is None:
                 fail = 'a receipt carries log_id L%d which no message has' % lg
         sig = (label, tuple(sorted(m['nseg'] for m in msgs))[:3], any(any(m['errs']) for m in msgs), early, via_tlv,
-               dup, unknown, collide)
+               dup, unknown, collide, persist)
         cases.append(Case(ln, out, sig, fail, {'op': 'history', 'label': label, 'lines': [c.line for c in cases[1:]]}))
     finally:
         sim.close()
+        if pdir:
+            shutil.rmtree(pdir, ignore_errors=True)
     return cases
 
 
@@ -203,7 +212,8 @@ def generate(rng, tier):
             p = rng.choice((0.0, 0.0, 0.4))
             msgs.append(dict(log=20 + i, nseg=nseg, ref=refs[i],
                              errs=[rng.choice((1, 7, 255)) if rng.random() < p else 0 for _ in range(nseg)]))
-        yield from history(rng, msgs, via_tlv=rng.random() < 0.3, dup=rng.random() < 0.15, unknown=rng.random() < 0.3)
+        yield from history(rng, msgs, via_tlv=rng.random() < 0.3, dup=rng.random() < 0.15, unknown=rng.random() < 0.3,
+                           persist=rng.random() < 0.2)
     for nseg in (2, 3):
         for pos in range(nseg):
             errs = [0] * nseg
